@@ -31,7 +31,14 @@ def main():
             conf = json.load(open(os.path.join(seedtool.VERIF, "seeded", name, "meta.json"))).get("confirmed_by_me", {})
             ok = True
         else:
-            c = seedtool.confirm(prop, k, crate)
+            rf = meta.get("rustflags")
+            if isinstance(rf, str) and "--cfg" in rf:
+                import re
+                m = re.search(r"--cfg[ =]\w+", rf)
+                rf = m.group(0) if m else None
+            else:
+                rf = None
+            c = seedtool.confirm(prop, k, crate, rf)
             ok = (not c.get("error") and c["suite_with_change"]["failed"] == 0 and c["suite_with_change"]["passed"] >= 77
                   and c["suite_with_change"]["compiles"] and c.get("demo_with_change") == "FAILS" and c.get("demo_without_change") == "passes")
             conf = {"existing_suite_with_change": c.get("suite_with_change"), "demo_with_change": c.get("demo_with_change"),
